@@ -125,11 +125,21 @@ type gate struct {
 }
 
 func (g *gate) enter() any {
-	w := g.w
-	w.mu.Lock()
+	g.w.mu.Lock()
+	my := g.arriveLocked()
+	return g.waitLocked(my)
+}
+
+// arriveLocked registers the calling goroutine at the gate (w.mu held).
+func (g *gate) arriveLocked() int {
 	g.entered++
-	my := g.entered
-	w.cond.Broadcast()
+	g.w.cond.Broadcast()
+	return g.entered
+}
+
+// waitLocked blocks until the my-th arrival is released (w.mu held on entry, released on return).
+func (g *gate) waitLocked(my int) any {
+	w := g.w
 	for g.released < my && !w.dead {
 		w.cond.Wait()
 	}
